@@ -31,7 +31,7 @@ ASSUMPTIONS = ['gfortran 12 -O0 -fcheck=all with FPE traps is the reference sema
                'generated kernels are well-defined by construction; a case whose original does not run clean is discarded as inconclusive',
                'reals compared to the precision of the declared kind (see LEVEL_NOTE); operands of discontinuous real '
                'operations are built so that last-bit differences cannot flip branches']
-BUDGET_S = {'quick': 600, 'thorough': 3000}
+BUDGET_S = {'quick': 1800, 'thorough': 5400}
 CASE_TIMEOUT_S = 900
 
 # gated slices: idx % 16 -> (slice name, flag overrides)
@@ -45,6 +45,7 @@ SLICES = {
     15: ('select', dict(select=True)),
     1: ('mod_in_product', dict(mod_in_product=True)),
     2: ('d_exponent_lit', dict(d_exponent_lit=True, kinds=('real64',), kind_decl='env', mix_kinds=False)),
+    6: ('member_in_mod', dict(member_in_mod=True, derived=True)),
     4: ('kind_single_by_name', dict(kind_decl='jprb_mod', kinds=('jprm',), mix_kinds=False)),
 }
 
